@@ -232,6 +232,9 @@ class Printer:
                     if it.macro:
                         # same helper, but written so that Rally's textual pre-assembly does not apply and the Jinja macro runs
                         out.append('%s  {{rally.collect(parts="%s/*.json")}}%s' % (pad, it.dirname, sep))
+                    elif i > 0 and isinstance(node[i - 1], Coll) and not node[i - 1].macro:
+                        # two collects in a row are written on ONE line
+                        out[-1] += ' {{ rally.collect(parts="%s/*.json") }}%s' % (it.dirname, sep)
                     else:
                         out.append('%s  {{ rally.collect(parts="%s/*.json") }}%s' % (pad, it.dirname, sep))
                 elif isinstance(it, Cond):
@@ -1074,7 +1077,13 @@ def apply_layout(seed, spec, features, level, needs_import=False):
     elif "schedule" in spec:
         spec["schedule"] = wrap_tasks(coin, spec["schedule"], features, "")
     if "operations" in spec and coin("operations") < 0.25:
-        spec["operations"] = [Coll("operations", spec["operations"])]
+        ops = spec["operations"]
+        if len(ops) >= 2 and coin("operations-split") < 0.4:
+            k = 1 + int(coin("operations-split-at") * (len(ops) - 1))
+            spec["operations"] = [Coll("operations", ops[:k]), Coll("operations-more", ops[k:])]
+            features.add("two-collects-on-one-line")
+        else:
+            spec["operations"] = [Coll("operations", ops)]
         use_import = use_import or "plain"
         features.add("collect-operations")
     return spec, use_import, unordered
